@@ -132,7 +132,10 @@ def parseReq (kvs : List (String × String)) : Option Req := do
   let sport ← (g "sport").toNat?
   let dport ← (g "dport").toNat?
   let target ← (if g "ddom" != "" then some (Target.domain (g "ddom")) else (parseIP (g "dip")).map Target.ip)
-  pure { net := net, server := srv, user := g "user", srcIP := src, srcPort := sport, target := target, dstPort := dport }
+  -- the user name travels as hex in `userx` (it may hold spaces or control characters)
+  let user ← (if g "userx" == "" then some (g "user")
+              else (ofHex? (g "userx")).bind (fun bs => String.fromUTF8? ⟨bs.toArray⟩))
+  pure { net := net, server := srv, user := user, srcIP := src, srcPort := sport, target := target, dstPort := dport }
 
 def stepC09 (st : St) (line : String) : St × String :=
   match fields line with
